@@ -373,8 +373,7 @@ def r6_monomials(ctx):
         if p.exit != "return":
             continue
         v = p.value
-        while v[0] == "call" and callee(v) in ("builtins.tuple", "builtins.list") and len(v[2]) == 1:
-            v = v[2][0]
+        v = Q.unseq(v)
         if not (v[0] == "call" and callee(v) == "builtins.sorted" and len(v[2]) == 1):
             ctx.add("R6", qn + "|sorted-by-degree", "UNDECIDED", "the result is not sorted(...): %s" % show(v)[:80], fn=qn)
             continue
